@@ -133,6 +133,48 @@ def programs(ctx):
         decl = '%s%s[] a = %s;' % ('const ' if const else '', kind, lit)
         src = (decl + '\n' if glob else '') + 'empty @is_you() {\n' + ('' if glob else '  ' + decl + '\n') + body + '}\n'
         progs.append(('%s%s array len %d %s' % ('const ' if const else '', kind, ln, 'global' if glob else 'local'), src, exp, [kind, ln]))
+    # 4. several constant arrays / strings in ONE program: equal contents, equal packed bytes with
+    #    different lengths (bool arrays padded with false, byte/int arrays that are prefixes of one another)
+    for n in range(120 if ctx.tier == 'quick' else 1000):
+        k = rng.randrange(2, 6)
+        kind = rng.choice(['bool', 'bool', 'byte', 'int', 'string'])
+        base_len = rng.randrange(1, 7)
+        if kind == 'bool':
+            base = [rng.random() < 0.5 for _ in range(base_len)]
+            variants = [base + [False] * rng.randrange(0, 9 - base_len if base_len < 8 else 1) for _ in range(k)]
+            lit = lambda v: '[' + ', '.join('true' if x else 'false' for x in v) + ']'
+            show = lambda name: 'write(%s.length); write(\':\'); for (int i = 0; i < %s.length; i += 1) { if (%s[i]) { write(\'1\'); } else { write(\'0\'); } } write(\';\');' % (name, name, name)
+            exp1 = lambda v: str(len(v)).encode() + b':' + b''.join(b'1' if x else b'0' for x in v) + b';'
+        elif kind == 'byte':
+            base = [rng.randrange(256) for _ in range(base_len)]
+            variants = [base[:rng.randrange(1, base_len + 1)] if rng.random() < 0.5 else list(base) for _ in range(k)]
+            lit = lambda v: '[' + ', '.join(str(x) for x in v) + ']'
+            show = lambda name: 'write(%s.length); write(\':\'); write(%s); write(\';\');' % (name, name)
+            exp1 = lambda v: str(len(v)).encode() + b':' + bytes(v) + b';'
+        elif kind == 'int':
+            base = [rng.choice([0, 1, 5, 256, -1]) for _ in range(base_len)]
+            variants = [base + [0] * rng.randrange(0, 3) if rng.random() < 0.5 else base[:rng.randrange(1, base_len + 1)] for _ in range(k)]
+            lit = lambda v: '[' + ', '.join('(%d)' % x if x < 0 else str(x) for x in v) + ']'
+            show = lambda name: 'write(%s.length); write(\':\'); for (int i = 0; i < %s.length; i += 1) { write(%s[i]); write(\',\'); } write(\';\');' % (name, name, name)
+            exp1 = lambda v: str(len(v)).encode() + b':' + b''.join(str(x).encode() + b',' for x in v) + b';'
+        else:
+            base = bytes(rng.choice([65, 66, 0, 92, 34]) for _ in range(base_len))
+            variants = [base[:rng.randrange(0, base_len + 1)] if rng.random() < 0.5 else base for _ in range(k)]
+            lit = lambda v: hid_str(v)
+            show = lambda name: 'write(%s.length); write(\':\'); write(%s); write(\';\');' % (name, name)
+            exp1 = lambda v: str(len(v)).encode() + b':' + v + b';'
+        decls, body, exp = [], [], b''
+        for j, v in enumerate(variants):
+            name = 'c%d' % j
+            glob = rng.random() < 0.5
+            ty = 'string' if kind == 'string' else 'const %s[]' % kind
+            d = '%s %s = %s;' % (ty, name, lit(v))
+            (decls if glob else body).append(d)
+        for j, v in enumerate(variants):
+            body.append(show('c%d' % j))
+            exp += exp1(v)
+        src = '\n'.join(decls) + '\nempty @is_you() {\n  ' + '\n  '.join(body) + '\n}\n'
+        progs.append(('several %s constants in one program' % kind, src, exp, [kind, k]))
     return progs
 
 
